@@ -81,6 +81,9 @@ type FnGen struct {
 	curInstrIdx int
 	paramStable map[string]bool
 	privateRefs map[string]string // ref term -> private component prefix (locals captured only by local closures)
+	semiPriv    map[string]string // private prefix -> ghost escape flag (captured variables whose closures may be handed out)
+	semiPrivOf  map[*ssa.Alloc]bool
+	funcConsts  map[string]*ssa.Function // term of a function constant -> the function
 	privateOf   map[*ssa.Alloc]bool
 }
 
@@ -131,6 +134,7 @@ func (fg *FnGen) reset(pass int) {
 	fg.rangeIters = map[ssa.Value]*rangeIter{}
 	fg.localAllocs = nil
 	fg.privateRefs = map[string]string{}
+	fg.semiPriv = map[string]string{}
 	if pass == 1 {
 		fg.compSorts = map[string]Sort{}
 		fg.compOrder = nil
@@ -309,7 +313,20 @@ func (fg *FnGen) havocAll(why string) {
 			}
 		}
 		if strings.HasPrefix(comp, "H:local!") {
-			continue // private local: unreachable for callees (closures bound to it havoc it explicitly)
+			// private local: unreachable for callees (closures bound to it havoc it explicitly); a captured variable
+			// whose closure has been handed out is reachable from then on
+			for pfx, esc := range fg.semiPriv {
+				if strings.HasPrefix(comp, "H:"+pfx) {
+					sort := fg.compSorts[comp]
+					cur := fg.get(fg.cur, comp, sort)
+					e := fg.get(fg.cur, esc, SBool)
+					fg.havocComp(comp)
+					nv := fg.cur.ver[comp]
+					fg.assume(Implies(Not(e), Eq(nv, cur)))
+					break
+				}
+			}
+			continue
 		}
 		fg.havocComp(comp)
 	}
@@ -593,7 +610,12 @@ func (fg *FnGen) val(v ssa.Value) *Val {
 	case *ssa.Const:
 		return fg.constVal(x)
 	case *ssa.Function:
-		return &Val{T: x.Type(), L: []Term{fg.declare("fn!"+sanitize(x.String()), SInt)}}
+		t := fg.declare("fn!"+sanitize(x.String()), SInt)
+		if fg.funcConsts == nil {
+			fg.funcConsts = map[string]*ssa.Function{}
+		}
+		fg.funcConsts[t.S] = x
+		return &Val{T: x.Type(), L: []Term{t}}
 	case *ssa.Global:
 		// address of a package-level variable: a root reference
 		c := fg.declare("global!"+sanitize(x.String()), SInt)
